@@ -307,6 +307,8 @@ def read_pdf(data):
         content = d.decompress(raw) + d.flush()
         if not d.eof:
             raise Bad('content stream truncated')
+        if d.unused_data:
+            problems.append(('stream-length', ln, 'bytes after the end of the deflate stream: %r' % d.unused_data[:8]))
     except zlib.error as ex:
         raise Bad('content stream does not inflate: %s' % ex)
     try:
